@@ -279,26 +279,21 @@ Local Open Scope R_scope.
 Definition mkh (c : icode) (lo hi : R) (i : nat) : hsys RNum := @Build_hsys RNum c lo hi i.
 Definition mkn (c : ncode) (lo hi : R) (i : nat) : nsys := Build_nsys c lo hi i.
 Definition mkx (nom : R) (hs : list (hsys RNum)) (idx : list nat) (ns : list nsys) : xcell := Build_xcell (@Build_cell RNum nom hs idx) ns.
-(* unfold the model down to + - * / over the literals and the interpolation atoms (delta / ddelta / nfac / dnfac at literals) *)
-Ltac expose := cbv [xgrad xrate_dual ggrad ggrad_main ggrad_pois ggrad_gaus xmodel_g xcell_g gm_bins gm_pois gm_gaus xm_bins xm_pois xm_gaus x_cell x_ns
-   mkh mkn mkx gbin_dual gcell_dual map fold_right hpiece npiece pdual pval pardual dirj par nth c_nom c_hs c_fac g_nom g_add g_fac g_mul
-   p_f p_df p_i h_par n_par Nat.eqb Nat.ltb Nat.leb length d_add d_mul fst snd nadd nmul n0 RNum V]; fold RNum.
+(* unfold one bin down to + - * / over the literals and the interpolation atoms (delta / ddelta / nfac / dnfac at literals) *)
+Ltac expose_bin := cbv [xrate_dual gbin_dual gbin_rate gcell_dual gcell_rate xcell_g x_cell x_ns mkh mkn mkx map fold_right hpiece npiece pdual pval pardual dirj par nth
+   c_nom c_hs c_fac g_nom g_add g_fac g_mul p_f p_df p_i h_par n_par Nat.eqb Nat.ltb Nat.leb length d_add d_mul fst snd nadd nmul n0 RNum V]; fold RNum.
 Ltac prep := cbv zeta; rsimp; cmp; cbn [andb]; rpow_res.
-Ltac unf := cbv [delta ddelta dcode0 dcode2 dcode4p nfac dnfac dcode1 dcode4 h_code h_lo h_hi h_par n_code n_lo n_hi n_par two ofnat
+(* an atom as an explicit real expression: the regime is decided by lra on the literals *)
+Ltac unf := cbv [mkh mkn delta ddelta dcode0 dcode2 dcode4p nfac dnfac dcode1 dcode4 h_code h_lo h_hi h_par n_code n_lo n_hi n_par two ofnat
                  Z.of_nat Pos.of_succ_nat Pos.succ slow_code1 slow_code4 c4 dpoly6 bvec A_inverse nth InterpFast.dot InterpFast.dot_from]; prep.
-(* enclose one atom: t = explicit real expression (regime decided by lra on the literals), interval_intro bounds it *)
-Ltac enc t :=
-  let v := fresh "v" in let Ev := fresh "Ev" in let e := fresh "e" in let E := fresh "E" in let H := fresh "H" in
-  remember t as v eqn:Ev;
-  evar (e : R); assert (E : t = e) by (unf; subst e; reflexivity);
-  (let b := eval unfold e in e in interval_intro b with (i_prec 70) as H);
-  unfold e in E; rewrite <- E, <- Ev in H; clear E Ev e.
-Ltac enc_all := repeat match goal with
-  | |- context [nfac ?n ?a] => enc (nfac n a)
-  | |- context [dnfac ?n ?a] => enc (dnfac n a)
-  | |- context [delta RNum ?h ?n ?a] => enc (delta RNum h n a)
-  | |- context [ddelta ?h ?n ?a] => enc (ddelta h n a)
-  end.
+(* name the quantity [t] as variable [v] (equation Ev : v = t) and bound it, H : lo <= v <= hi, with bounds computed by
+   interval_intro; [tac] turns the goal [t = ?e] into an explicit expression over literals and already named variables *)
+Ltac bound t v Ev H tac :=
+  pose (v := t); assert (Ev : v = t) by reflexivity; clearbody v;
+  let e := fresh "e" in let E := fresh "E" in
+  evar (e : R); assert (E : t = e) by (tac; subst e; reflexivity);
+  (let b := eval unfold e in e in interval_intro b with (i_prec 64) as H);
+  unfold e in E; rewrite <- E, <- Ev in H; clear E e.
 '''
 
 
@@ -450,37 +445,111 @@ def mp_to_frac(r):
     return Fraction(mp.nstr(r, 38, strip_zeros=False, min_fixed=0, max_fixed=0))
 
 
+def xcell_text(c):
+    hs = core.clist(c[1], lambda h: '(mkh %s %s %s %d%%nat)' % (CODES[h[0]], rlit(h[1]), rlit(h[2]), h[3]))
+    ns = core.clist(c[3], lambda n: '(mkn %s %s %s %d%%nat)' % (NCODES[n[0]], rlit(n[1]), rlit(n[2]), n[3]))
+    return '(mkx %s %s %s %s)' % (rlit(c[0]), hs, core.clist(c[2], lambda i: '%d%%nat' % i), ns)
+
+
 def xgoal(k, case):
-    """Coq text certifying the reference gradient and rates of one case against GradInterp.xgrad / xrate_dual"""
-    cm = case['cm']
+    """Coq text certifying the reference gradient and rates of one case against GradInterp.xgrad / xbin_rate.
+    Staged so that no large term is ever traversed: (1) every interpolation atom (value / derivative of one piece at its
+    literal alpha) is named and bounded, (2) per bin the rate and its derivative along every parameter are named and bounded
+    in terms of the atoms, (3) each gradient component is a small expression over those names."""
+    cm, x, data = case['cm'], case['x'], case['data']
     g, rates = case['ref']
+    n, nb = cm['npars'], cm['nmain']
+    pois = core.clist([(j, i) for j, (kd, i) in enumerate(cm['aux']) if kd == 'pois'],
+                      lambda t: '(%s, %s, %d%%nat)' % (rlit(data[nb + t[0]]), rlit(cm['pois'][t[1]]), t[1]))
+    gaus = core.clist([(j, i) for j, (kd, i) in enumerate(cm['aux']) if kd == 'gaus'],
+                      lambda t: '(%s, %s, %d%%nat)' % (rlit(cm['gaus'][t[1]]), rlit(data[nb + t[0]]), t[1]))
+    out = ['Definition x_%d : list R := %s.' % (k, core.clist(x, rlit))]
+    for b in range(nb):
+        out.append('Definition C_%d_%d : list xcell := %s.' % (k, b, core.clist(cm['bins'][b], xcell_text)))
+        out.append('Definition G_%d_%d : list gcell := map xcell_g C_%d_%d.' % (k, b, k, b))
+    out.append('Definition M_%d : xmodel := Build_xmodel %s %s %s.' % (k, core.clist(range(nb), lambda b: '(%s, C_%d_%d)' % (rlit(data[b]), k, b)), pois, gaus))
+    out.append('Definition GM_%d : gmodel := Build_gmodel %s %s %s.' % (k, core.clist(range(nb), lambda b: '(%s, G_%d_%d)' % (rlit(data[b]), k, b)), pois, gaus))
+    atoms = {}
+    for cells in cm['bins']:
+        for nom, hs, idx, ns in cells:
+            for code, lo, hi, i in hs:
+                h = '(@Build_hsys RNum %s %s %s %d%%nat)' % (CODES[code], rlit(lo), rlit(hi), i)
+                atoms.setdefault('delta RNum %s %s %s' % (h, rlit(nom), rlit(x[i])), len(atoms))
+                atoms.setdefault('ddelta %s %s %s' % (h, rlit(nom), rlit(x[i])), len(atoms))
+            for ncode, lo, hi, i in ns:
+                nn = '(Build_nsys %s %s %s %d%%nat)' % (NCODES[ncode], rlit(lo), rlit(hi), i)
+                atoms.setdefault('nfac %s %s' % (nn, rlit(x[i])), len(atoms))
+                atoms.setdefault('dnfac %s %s' % (nn, rlit(x[i])), len(atoms))
+    steps = ['bound (%s) v%d Ev%d H%d unf' % (t, a, a, a) for t, a in atoms.items()]
+    rw1 = 'idtac' if not atoms else 'rewrite ' + ', '.join('<- ?Ev%d' % a for a in atoms.values())
+    names = []
+    for b in range(nb):
+        opened = 'unfold x_%d, G_%d_%d, C_%d_%d; expose_bin; %s' % (k, k, b, k, b, rw1)
+        steps.append('bound (gbin_rate x_%d G_%d_%d) L%d EL%d HL%d ltac:(%s)' % (k, k, b, b, b, b, opened))
+        names.append('EL%d' % b)
+        for j in range(n):
+            steps.append('bound (snd (gbin_dual x_%d %d%%nat G_%d_%d)) D%d_%d ED%d_%d HD%d_%d ltac:(%s)' % (k, j, k, b, b, j, b, j, b, j, opened))
+            names.append('ED%d_%d' % (b, j))
+    rw2 = 'rewrite ' + ', '.join('<- ?%s' % nm for nm in names)
+    folds = 'fold ' + ' '.join('G_%d_%d' % (k, b) for b in range(nb))
+    top = ('first [ match goal with |- context [xgrad M_%d x_%d ?j] => change (xgrad M_%d x_%d j) with (ggrad GM_%d x_%d j) end; '
+           'unfold ggrad, ggrad_main, ggrad_pois, ggrad_gaus, GM_%d; cbn [gm_bins gm_pois gm_gaus fold_right fst snd]; rewrite !gbin_dual_value; %s; '
+           'unfold x_%d; cbv [dirj par nth Nat.eqb Nat.ltb Nat.leb length RNum n0 V]; interval with (i_prec 64) '
+           '| rewrite xbin_rate_g; %s; %s; interval with (i_prec 64) ]' % (k, k, k, k, k, k, k, rw2, k, folds, rw2))
     scale = max([abs(v) for v in g] + [Fraction(1)])
     eg = Fraction(CERT_RTOL) * scale
-    parts = ['Rabs (xgrad M_%d x_%d %d%%nat - %s) <= %s' % (k, k, j, rlit(g[j]), rlit(eg)) for j in range(cm['npars'])]
-    parts += ['Rabs (fst (xrate_dual x_%d 0%%nat (snd (nth %d%%nat (xm_bins M_%d) (0, [])))) - %s) <= %s' % (
-        k, b, k, rlit(rates[b]), rlit(Fraction(CERT_RTOL) * max(abs(rates[b]), Fraction(1)))) for b in range(cm['nmain'])]
-    return ('Definition M_%d : xmodel := %s.\nDefinition x_%d : list R := %s.\n'
-            'Goal True.\ntryif (assert (%s) by (unfold M_%d, x_%d; expose; enc_all; repeat split; interval with (i_prec 64)))\n'
-            'then idtac "C13OK %d" else idtac "C13FAIL %d".\nexact I.\nQed.\n' % (
-                k, coq_xmodel(cm, case['data']), k, core.clist(case['x'], rlit), ' /\\ '.join(parts), k, k, k, k))
+    parts = ['Rabs (xgrad M_%d x_%d %d%%nat - %s) <= %s' % (k, k, j, rlit(g[j]), rlit(eg)) for j in range(n)]
+    parts += ['Rabs (xbin_rate x_%d C_%d_%d - %s) <= %s' % (k, k, b, rlit(rates[b]), rlit(Fraction(CERT_RTOL) * max(abs(rates[b]), Fraction(1)))) for b in range(nb)]
+    out.append('Goal True.\ntryif (assert (%s) by (%s;\n repeat split; %s))\nthen idtac "C13OK %d" else idtac "C13FAIL %d".\nexact I.\nQed.\n' % (
+        ' /\\ '.join(parts), ';\n '.join(steps), top, k, k))
+    return '\n'.join(out)
+
+
+XDEPS = ('Num.v', 'TNum.v', 'InterpFast.v', 'gen/InterpGen.v', 'InterpGeneric.v', 'InterpThms.v', 'FitCert.v', 'FitRate.v', 'Grad.v', 'GradInterp.v')
+
+
+def _sha(path):
+    import hashlib
+    try:
+        return hashlib.sha256(open(path, 'rb').read()).hexdigest()
+    except OSError:
+        return 'missing'
 
 
 def run_xgoals(ctx, items, jobs):
-    """items: list of (index, case).  Returns dict index -> 'ok' | 'fail' | 'error: ...'"""
+    """items: list of (index, case).  Returns dict index -> 'ok' | 'fail' | 'error: ...'.
+    Verdicts 'ok' are cached under .work/cache-C13 keyed by sha256(goal text, header, every .v the goal depends on): identical
+    text checked against identical definitions has the identical verdict."""
+    import hashlib
     d = os.path.join(ctx.work, 'xgoals')
     os.makedirs(d, exist_ok=True)
     if not items:
         return {}
-    nfiles = max(1, min(len(items), 2 * jobs))
+    cpath = os.path.join(core.WORK, 'cache-C13', 'xgoals.json')
+    try:
+        cache = json.load(open(cpath)) if os.environ.get('VERIF_NO_CACHE') != '1' else {}
+    except (OSError, ValueError):
+        cache = {}
+    dep = '|'.join(_sha(os.path.join(core.COQ, p)) for p in XDEPS) + XHEADER
+    texts = {k: xgoal(k, c) for k, c in items}
+    hashes = {k: hashlib.sha256((dep + re_index(texts[k], k)).encode()).hexdigest() for k, _ in items}
+    res = {k: 'ok' for k, _ in items if cache.get(hashes[k]) == 'ok'}
+    ctx.coverage['interval_cached'] = len(res)
+    todo = [k for k, _ in items if k not in res]
+    if not todo:
+        return res
+    # big cases first, spread over the files
+    todo.sort(key=lambda k: -len(texts[k]))
+    nfiles = max(1, min(len(todo), 2 * jobs))
     files = []
     for f in range(nfiles):
-        grp = items[f::nfiles]
+        grp = todo[f::nfiles]
         fnm = os.path.join(d, 'xg_%d.v' % f)
         with open(fnm, 'w') as fh:
             fh.write(XHEADER)
-            for k, c in grp:
-                fh.write(xgoal(k, c))
-        files.append((fnm, [k for k, _ in grp]))
+            for k in grp:
+                fh.write(texts[k])
+        files.append((fnm, grp))
 
     def one(arg):
         fnm, ks = arg
@@ -497,11 +566,28 @@ def run_xgoals(ctx, items, jobs):
         if rc != 0:           # a file that does not check certifies nothing
             r = {k: ('error: ' + out[-400:]) if v == 'ok' else v for k, v in r.items()}
         return r
-    res = {}
     with ThreadPoolExecutor(max_workers=jobs) as ex:
         for r in ex.map(one, files):
             res.update(r)
+    for k in todo:
+        if res.get(k) == 'ok':
+            cache[hashes[k]] = 'ok'
+    try:
+        os.makedirs(os.path.dirname(cpath), exist_ok=True)
+        if len(cache) > 50000:
+            cache = {}
+        tmp = cpath + '.%d.tmp' % os.getpid()
+        json.dump(cache, open(tmp, 'w'))
+        os.replace(tmp, cpath)
+    except OSError:
+        pass
     return res
+
+
+def re_index(text, k):
+    """goal text with the case index normalised (the verdict does not depend on the position of the case in the run)"""
+    import re
+    return re.sub(r'(?<![A-Za-z0-9])(x|M|GM|C|G)_%d(?![0-9])' % k, r'\1_K', text).replace('C13OK %d' % k, 'C13OK K').replace('C13FAIL %d' % k, 'C13FAIL K')
 
 
 # ----------------------------------------------------------------------------------------------
@@ -552,7 +638,7 @@ def delta_float(code, lo, nom, hi, a):
 ALPHA_POINTS = [0.0, 1.0, -1.0, 0.5, -0.5, 2.0, -2.0, 1.5, -1.25, 1e-9, -1e-9, 1.0000001, -0.9999999]
 # regimes a normsys parameter is put into, in turn (the parameter is free in that case): every regime and every breakpoint
 NS_FOCUS = {'code4': [1.0, -1.0, 0.0, 0.5, -0.25, 1.75, -2.5, 1.0, -1.0, 0.9999999999999999, -1.0000000000000002, 0.0],
-            'code1': [0.0, 1.0, -1.0, 0.5, -0.75, 2.25, -1.5, 0.0, 1e-300, -1e-9]}
+            'code1': [0.0, 1.0, -1.0, 0.5, -0.75, 2.25, -1.5, 1e-300, -1e-9, 0.0]}
 
 
 def gen_point(rng, cm, k):
@@ -585,9 +671,9 @@ def gen_data(rng, cm, x):
     return main + aux
 
 
-def make_case(rng, k, family='plain'):
+def make_case(rng, k, family='plain', small=False, slot=None):
     """family: 'plain' (no transcendental piece, POI mu), 'binwise' (POI-less, bin-wise parameters only), 'code1' / 'code4'
-    (normsys factors with that interpolation code)"""
+    (normsys factors with that interpolation code; small: at most 4 bins and 8 parameters, the interval goals of the quick tier)"""
     import pyhf
     pyhf.set_backend('numpy')
     for _ in range(200):
@@ -606,11 +692,11 @@ def make_case(rng, k, family='plain'):
         mask = [rng.random() < 0.25 for _ in range(cm['npars'])]
         focus = None
         if family in ('code1', 'code4'):
-            if not cm['nalphas']:
+            if not cm['nalphas'] or (small and (cm['nmain'] > 4 or cm['npars'] > 8)):
                 continue
             a0 = cm['nalphas'][k % len(cm['nalphas'])]
             sched = NS_FOCUS[ncode]
-            x[a0] = sched[(k // 2) % len(sched)]
+            x[a0] = sched[(k if slot is None else slot) % len(sched)]
             mask[a0] = False
             focus = a0
             if rng.random() < 0.5:           # a second interpolation parameter (histosys or normsys) on a breakpoint of its own code
@@ -763,7 +849,8 @@ def run(ctx):
     nplain, nbin, nns = ctx.n(24, 220), ctx.n(6, 40), ctx.n(20, 120)
     cases += [make_case(rng, k, 'plain') for k in range(nplain)]
     cases += [make_case(rng, k, 'binwise') for k in range(nbin)]
-    cases += [make_case(rng, k, 'code4' if k % 5 < 3 else 'code1') for k in range(nns)]
+    fams = ['code4' if k % 5 < 3 else 'code1' for k in range(nns)]
+    cases += [make_case(rng, k, fams[k], small=ctx.quick, slot=fams[:k].count(fams[k])) for k in range(nns)]
     ctx.log('generated %d cases' % len(cases))
     qidx = [k for k, c in enumerate(cases) if not c['cm']['nalphas']]
     ridx = [k for k, c in enumerate(cases) if c['cm']['nalphas']]
@@ -850,7 +937,8 @@ def run(ctx):
                 key = '%s:%s%s' % (cm['ncode'], reg, '' if c['mask'][i] else ':free')
                 stats['normsys_regimes'][key] = stats['normsys_regimes'].get(key, 0) + 1
             else:
-                stats['alpha_regimes'][reg] = stats['alpha_regimes'].get(reg, 0) + 1
+                key = '%s:%s%s' % (c['code'], reg, '' if c['mask'][i] else ':free')
+                stats['alpha_regimes'][key] = stats['alpha_regimes'].get(key, 0) + 1
         if cm['nalphas']:
             stats['ncodes'][cm['ncode']] = stats['ncodes'].get(cm['ncode'], 0) + 1
         if not all(math.isfinite(v) for v in [rec['value'], rec['value_nograd']] + rec['grad']):
